@@ -164,6 +164,22 @@ def _exec_items(items):
                 detached = True
                 obs.append({'class': 'detach', 'hash': ''})
                 continue
+            if s['op'] == 'addcopy':
+                from pydbml.classes import Enum, EnumItem
+                twin = Enum(o.name, [EnumItem(i.name, note=(i.note.text if i.note else None), comment=i.comment) for i in o.items],
+                            schema=o.schema, comment=o.comment)
+                try:
+                    db.add(twin)
+                    db.delete(twin)              # (the enum itself was detached earlier: the copy is taken out again)
+                except Exception:
+                    pass                         # refused: a member carries this name
+                try:
+                    text = getattr(twin, s['out'])
+                    cls = 'custom' if text.startswith('TAG') else ('empty' if text == '' else 'default')
+                except Exception as ex:
+                    text, cls = '', 'error:' + type(ex).__name__
+                obs.append({'class': cls, 'hash': hashlib.sha1(text.encode('utf8')).hexdigest()[:12]})
+                continue
             if s['op'] == 'readd':
                 try:
                     db.add(o)           # a member: refused (the project: replaced by itself); a detached element: attached again
@@ -335,7 +351,8 @@ def main(argv: List[str]) -> int:
            ['render %s.%s -> %s' % (k, 'dbml', c) for k in ('ref', 'group', 'sticky', 'project', 'column') for c in ('default', 'empty')] + \
            ['render db.%s -> %s' % (o, c) for o in ('sql', 'dbml') for c in ('default', 'custom')] + ['route ' + x for x in ROUTES]
     never = [k for k in want if not seen.get(k)]
-    if never or not any(k.startswith('detach') for k in seen) or not any(k.startswith('readd project') for k in seen):
+    if never or not any(k.startswith('detach') for k in seen) or not any(k.startswith('readd project') for k in seen) \
+            or not any(k.startswith('addcopy') for k in seen):
         raise core.Machinery('C16: never observed: %s' % never)
     rep.notes['sessions'] = len(ds)
     rep.samples.append({'seed': ds[0][0], 'session': ds[0][1]['sess'], 'observed': out[1][1]['obs']})
